@@ -2,7 +2,7 @@
     ([annot], [flat_ok], [vok]) and the lemmas about sub-plans lifted through a field or a union member. *)
 From Coq Require Import List String Bool Arith ZArith Lia.
 From Thunder Require Import Lib.Json Federation.Merge Federation.MergeProofsBase Federation.Normalize Federation.Planner
-  Federation.Executor Federation.ExecutorProofs Federation.NormalizeProofs Federation.FedBase.
+  Federation.Executor Federation.ExecutorProofs Federation.NormalizeProofs Federation.FedBase Federation.Premises.
 Import ListNotations.
 Open Scope string_scope.
 Open Scope list_scope.
@@ -20,40 +20,6 @@ Fixpoint annot (n : node) : node :=
       NField al nm args ak dirs hs (if has_frag subs then tn_sel :: map annot subs else map annot subs)
   | NFrag on dirs subs => NFrag on dirs (map annot subs)
   end.
-
-(** ** well-formed normalised queries (decidable; evaluated on every flattened query by the harness) *)
-Definition alias_ok (al nm : string) : bool :=
-  negb (String.eqb al federation_field) && negb (String.eqb al "__key") &&
-  negb (String.eqb nm federation_field) &&
-  Bool.eqb (String.eqb al "__typename") (String.eqb nm "__typename").
-
-Fixpoint node_ok (g : gschema) (ctx : rtype) (n : node) {struct n} : bool :=
-  match ctx, n with
-  | RObj ty, NField al nm _ _ dirs hs subs =>
-      alias_ok al nm && match dirs with [] => true | _ => false end &&
-      if String.eqb nm "__typename" then negb hs && match subs with [] => true | _ => false end
-      else match find_gfield g ty nm with
-           | None => false
-           | Some (RScalar, _) => negb hs && match subs with [] => true | _ => false end
-           | Some (RObj o, _) =>
-               hs && nodup_str (map n_alias subs) && forallb (node_ok g (RObj o)) subs
-           | Some (RUnion u, _) =>
-               hs && nodup_str (map n_alias subs) && forallb (node_ok g (RUnion u)) subs &&
-               match union_members g u with
-               | Some ms => forallb (fun m => existsb (fun x => String.eqb (n_alias x) m) subs) ms
-               | None => false
-               end
-           end
-  | RUnion u, NFrag on dirs body =>
-      match dirs with [] => true | _ => false end &&
-      match union_members g u with Some ms => existsb (String.eqb on) ms | None => false end &&
-      match body with [] => false | _ => true end &&
-      nodup_str (map n_alias body) && forallb (node_ok g (RObj on)) body
-  | _, _ => false
-  end.
-
-Definition flat_ok (g : gschema) (ty : string) (sels : list node) : bool :=
-  nodup_str (map n_alias sels) && forallb (node_ok g (RObj ty)) sels.
 
 (** ** well-typed worlds: an object-typed field yields (lists of, or null) objects of that type, a union-typed
     field members of that union *)
